@@ -33,7 +33,7 @@ func init() {
 			"value sets (sizes 0–3, negative numbers, dots, delimiters inside strings, strings starting with letters of the parameter name, key orders) × absent/empty/present × required × allowEmptyValue × constraint variants (min/max, enum, minItems, required properties), " +
 			"each serialised by an independent Go implementation of the OpenAPI style table (the driver re-encodes and must agree); allOf/anyOf/oneOf over pairs of leaf schemas; " +
 			"plus a seeded stream of malformed / free carrier texts assembled from delimiters, prefixes and primitive tokens (incl. non-decimal integers, odd pair counts, wrong prefixes). " +
-			"A case is non-trivial by construction (the driver reports cell, shape, verdict, value kind, round-trip oracle and model≠spec branches).",
+			"A case is non-trivial when the decoder is actually entered (the driver then reports cell, shape, verdict, value kind, round-trip oracle and model≠spec branches); requests with an empty PathParams map / empty query (early return) count as trivial.",
 		Exhaustive: true,
 		Gen:        genC05,
 		Run:        runC05,
@@ -316,8 +316,14 @@ func c05Rat(m map[string]any) (*big.Rat, bool) {
 		}
 		mant, ok1 := new(big.Int).SetString(fmt.Sprint(m["m"]), 10)
 		e, err := strconv.Atoi(fmt.Sprint(m["e"]))
-		if !ok1 || err != nil || e > 400 || e < -400 {
+		if !ok1 || err != nil || e > 400 {
 			return nil, false
+		}
+		if e < -400 {
+			if len(mant.String()) > 60 {
+				return nil, false
+			}
+			return new(big.Rat), true // underflows to zero
 		}
 		r := new(big.Rat).SetInt(mant)
 		p := new(big.Rat).SetInt(new(big.Int).Exp(big.NewInt(10), big.NewInt(int64(abs(e))), nil))
@@ -911,7 +917,7 @@ func genC05(ctx *hx.Ctx, emit func(hx.Case)) {
 	deepVals := []string{"1", "-4", "x", "", "12", "010"}
 	nDeep := 1500
 	if ctx.Thorough() {
-		nDeep = 12000
+		nDeep = 40000
 	}
 	for i := 0; i < nDeep; i++ {
 		name := hx.Pick(r, names)
@@ -980,7 +986,7 @@ func genC05(ctx *hx.Ctx, emit func(hx.Case)) {
 		map[string]any{"k": "arr", "items": c05PS("boolean")}, objSchemas[2], objSchemas[3], map[string]any{"k": "arr", "items": c05PS("int32")})
 	nFree := 9000
 	if ctx.Thorough() {
-		nFree = 120000
+		nFree = 400000
 	}
 	for i := 0; i < nFree; i++ {
 		cl := hx.Pick(r, c05Cells)
